@@ -42,6 +42,32 @@ theorem mem_of_lookup {α β : Type} [BEq α] [LawfulBEq α] {k : α} {v : β} {
       cases h; subst this; simp
     · exact List.mem_cons_of_mem _ (ih h)
 
+theorem lookup_alInsert_ne {α β : Type} [BEq α] [LawfulBEq α] {k k' : α} {v v' : β} {l : List (α × β)}
+    (hne : k' ≠ k) (h : l.lookup k' = some v') : (alInsert k v l).lookup k' = some v' := by
+  induction l with
+  | nil => simp [List.lookup] at h
+  | cons hd tl ih =>
+    obtain ⟨k0, v0⟩ := hd
+    simp only [List.lookup] at h
+    unfold alInsert
+    split at h
+    · rename_i heq
+      have e : k' = k0 := by simpa using heq
+      cases h
+      split
+      · rename_i h2
+        have : k0 = k := by simpa using h2
+        exact absurd (e.trans this) hne
+      · simp [List.lookup, e]
+    · rename_i hneq
+      split
+      · rename_i h2
+        have : k0 = k := by simpa using h2
+        simp only [List.lookup]
+        have hk : (k' == k) = false := by simpa using hne
+        rw [hk]; exact h
+      · simp only [List.lookup, hneq]; exact ih h
+
 /-! ## the no-panic invariant (C13) -/
 
 /-- Per-entry invariant: recorded signatures are 65 bytes long; an entry that carries the node's own
